@@ -84,6 +84,24 @@ func (vc *FuncVC) dispatch(s *State, cl *callee, ord int, site ssa.Instruction, 
 		arg := act
 		arg.GoT = a.fn.Signature.Params().At(1).Type()
 		acl := &callee{name: "dispatch." + a.name, c: c, ckey: key, fn: a.fn, sig: a.fn.Signature, pnames: pn, args: []Term{cb.recv, ctx, arg}}
+		// C14 (proved on streams/gen_type_resolver.go): the callback invoked is the one written for the
+		// value's own type, and the own type's callback is invoked when registered. callbacks() registers
+		// the wrapped callback for T unless 'other' holds a function of that signature (premise, listed).
+		if tn := wrappedTypeName(a.fn); tn != "" {
+			pt := a.fn.Signature.Params().At(1).Type()
+			env := vc.newEnv(preState, preState, pos)
+			av := act
+			av.GoT = pt
+			env.vars["$act"] = av
+			if cl0, err := parseClause(nil, fmt.Sprintf("$act.GetTypeName() == %q", tn)); err == nil {
+				isT := vc.tr(env, cl0.E)
+				vc.assume(s.pc, imp(eq(choice, intLit(int64(i+2))), isT))
+				vc.eng.needFun(vc, "disp!overrides", []string{"Slice", "Int"}, "Bool")
+				ov := T("Bool", fmt.Sprintf("(disp!overrides %s %d)", cb.other.S, vc.ss.typeTag(a.fn.Signature)))
+				impl := vc.implementsTerm(act, act.GoT, pt)
+				vc.assume(s.pc, imp(and(isT, impl, not(ov)), eq(choice, intLit(int64(i+2)))))
+			}
+		}
 		res := vc.applyContract(sa, acl, ord, site, pos)
 		sa.vars["TMP:dispatch"] = res[0]
 		outs = append(outs, sa)
@@ -105,4 +123,20 @@ func (vc *FuncVC) dispatch(s *State, cl *callee, ord int, site ssa.Instruction, 
 		}
 	}
 	return []Term{r}
+}
+
+// wrappedTypeName: "Block" for a wrapped callback func(context.Context, vocab.ActivityStreamsBlock) error.
+func wrappedTypeName(f *ssa.Function) string {
+	if f.Signature.Params().Len() != 2 {
+		return ""
+	}
+	nt, ok := f.Signature.Params().At(1).Type().(*types.Named)
+	if !ok {
+		return ""
+	}
+	n := nt.Obj().Name()
+	if !strings.HasPrefix(n, "ActivityStreams") {
+		return ""
+	}
+	return strings.TrimPrefix(n, "ActivityStreams")
 }
